@@ -54,7 +54,33 @@ def _mk(t):
     return Ver(t)
 
 
+def _mk_foreign(t):
+    '''an implementer that keeps its version elsewhere and overrides the
+    accessors, as the class documentation allows; its _version_ attribute
+    means something else'''
+    import dawgie
+
+    class Foreign(dawgie.Version):
+        def __init__(self, t):
+            self._version_ = dawgie.VERSION(0, 0, 0)  # not the version
+            self._mine = dawgie.VERSION(*t)
+
+        def _get_ver(self):
+            return self._mine
+
+        def _set_ver(self, ver):
+            self._mine = ver
+
+    return Foreign(t)
+
+
 def _compare(out, a, b):
+    _compare_with(out, a, b, _mk, '')
+    if not out.failures:
+        _compare_with(out, a, b, _mk_foreign, '@accessors-overridden')
+
+
+def _compare_with(out, a, b, _mk, site):  # pylint: disable=redefined-outer-name
     import dawgie
 
     va, vb = _mk(a), _mk(b)
@@ -70,9 +96,10 @@ def _compare(out, a, b):
     }
     for op, (got, want) in checks.items():
         if bool(got) != want:
-            out.fail(f'order/{op}', f'{a} {op} {b}: got {got} want {want}')
+            out.fail(f'order/{op}{site}',
+                     f'{a} {op} {b}: got {got} want {want}')
     if va.asstring() != '.'.join(str(x) for x in a):
-        out.fail('order/asstring', f'{a} -> {va.asstring()}')
+        out.fail(f'order/asstring{site}', f'{a} -> {va.asstring()}')
     if ta != tb and (ta[0] == tb[0]):
         out.nontrivial = True
 
